@@ -63,6 +63,11 @@ def name_table(names, rng, family):
         pool = {"a": "é", "b": "ñ", "c": "ü", "bbb": "åçz", "long1": "温度_t", "long2": "Äp_ölx"}      # 2 bytes / 8 bytes
         for n in names:
             tab[n] = pool.get(n, n)
+    elif family == "maxlen":
+        # the long names are exactly NC_MAX_NAME (256) bytes long -- the longest name the format and the library allow
+        pool = {"long1": "temperature_" + "x" * 244, "long2": "air_density_" + "y" * 244}
+        for n in names:
+            tab[n] = pool.get(n, n)
     elif family == "collide":
         shorts = [n for n in names if len(n) == 1 or n == "bbb"]
         longs = [n for n in names if n not in shorts and not n.startswith("_")]      # (_FillValue keeps its spelling)
